@@ -54,6 +54,7 @@ BASE_FILES = [
     ("root2/a.liquid", "IN"), ("root2/e.liquid", "IN"), ("root2/sub/f.liquid", "IN"),
     ("outside/secret.txt", "OUT"), ("outside/a.liquid", "OUT"), ("outside/sub/c.liquid", "OUT"),
     ("outside/secret.liquid", "OUT"), ("secret.liquid", "OUT"), ("a.liquid", "OUT"),
+    ("outside/t.liquid", "OUT"),     # $HOME is outside/ during a run: what '~/t.liquid' must NOT reach
     ("pkgs/@PKG@/templates/p.liquid", "PIN"), ("pkgs/@PKG@/templates/sub/q.liquid", "PIN"),
     ("pkgs/@PKG@/templates/noext", "PIN"), ("pkgs/@PKG@/templates/r.txt", "PIN"),
     ("pkgs/@PKG@/more/m.liquid", "PIN2"),
@@ -99,7 +100,7 @@ class Tree:
             rel = rel.replace("@PKG@", self.pkg)
             n += 1
             tok = "%s:%d" % (kind, n)
-            fs.write(rel, tok, 1)
+            fs.write(rel, tok, n)       # every file its own mtime: replacing one by another is visible to stat()
             rp = os.path.realpath(fs.path(rel))
             self.tok_by_real[rp] = tok
             self.real_by_tok[tok] = rp
@@ -115,6 +116,37 @@ class Tree:
 
     def roots(self, names):
         return [self.fs.path(n) for n in names]
+
+    # -- editor: the tree changes BETWEEN requests of a sequential history -----------
+    def mutate(self, m):
+        """Apply one mutation; return a short description for the history."""
+        fs = self.fs
+        p = fs.path(m["path"])
+        self.nmut = getattr(self, "nmut", 0) + 1
+        tick = 500 + self.nmut
+
+        def remove():
+            if os.path.islink(p) or os.path.isfile(p):
+                os.unlink(p)
+            elif os.path.isdir(p):
+                import shutil
+                shutil.rmtree(p)
+
+        kind = m["kind"]
+        if kind in ("file_to_link", "dir_to_link"):
+            remove()
+            fs.symlink(m["path"], m["target"], kind == "dir_to_link")
+        elif kind == "write":          # create, or replace whatever is there by a regular file
+            remove()
+            tok = "IN:m%d" % self.nmut
+            fs.write(m["path"], tok, tick)
+            rp = os.path.realpath(p)
+            self.tok_by_real[rp] = tok
+            self.real_by_tok[tok] = rp
+            self.versions[rp] = [tok]
+        elif kind == "delete":
+            remove()
+        return "%s %s" % (kind, m["path"])
 
     # -- the model ----------------------------------------------------------------
     def resolve(self, name, bases, ext, always_ext, reject_symlinks):
@@ -262,7 +294,8 @@ class C22:
         sc = {
             "config": config, "loader": loader, "pkg": pkg, "absent": absent,
             "roots": ["root", "root2"] if two else ["root"],
-            "root_shape": rng.weighted([("abs", 6), ("relative", 2), ("via_link", 2)]),
+            "root_shape": rng.weighted([("abs", 6), ("relative", 2), ("via_link", 2), ("cwd", 2)]),
+            "cwd_form": rng.choice([".", "", "./"]),
             "pkg_paths": rng.choice([["templates"], ["templates", "more"], "templates"]),
             "ext": rng.weighted([(None, 3), (".liquid", 4), (".txt", 1)]),
             "reject_symlinks": rng.chance(0.5),
@@ -294,15 +327,61 @@ class C22:
                 elif r < 0.55:
                     op["edit_at"] = rng.randint(1, 5)
             rng.choice(clients)["ops"].append(op)
+        if config == "nofault" and loader in ("fs", "cfs") and rng.chance(0.3):
+            # a sequential history in which the tree changes between requests: what a name may
+            # resolve to is judged against the tree as it is at each request
+            ops = sorted((op for c in clients for op in c["ops"]), key=lambda o: o["uid"])
+            uid = nreq
+            for _ in range(rng.randint(1, 3)):
+                mut, names = self._gen_mutation(rng, sc)
+                at = rng.randint(0, len(ops))
+                seq = []
+                for nm in [rng.choice(names) for _ in range(rng.randint(0, 2))]:
+                    seq.append({"op": "req", "uid": uid, "name": nm, "mode": rng.choice(["sync", "async"]),
+                                "via": rng.weighted([("direct", 6), ("include", 2), ("get_source", 2)])})
+                    uid += 1
+                seq.append({"op": "mutate", "uid": uid, **mut})
+                uid += 1
+                for nm in [rng.choice(names) for _ in range(rng.randint(1, 3))]:
+                    seq.append({"op": "req", "uid": uid, "name": nm, "mode": rng.choice(["sync", "async"]),
+                                "via": rng.weighted([("direct", 6), ("include", 2), ("get_source", 2)])})
+                    uid += 1
+                ops[at:at] = seq
+            clients = [{"id": 0, "ops": ops}]
         sc["clients"] = clients
         return sc
+
+    def _gen_mutation(self, rng, sc):
+        ext = sc["ext"] or ""
+        k = rng.randrange(9)
+        if k == 0:
+            return ({"kind": "file_to_link", "path": "root/a.liquid", "target": "../outside/secret.txt"},
+                    ["a.liquid", "a"])
+        if k == 1:
+            return ({"kind": "dir_to_link", "path": "root/sub", "target": "../outside/sub"},
+                    ["sub/c.liquid", "sub/c"])
+        if k == 2:
+            return ({"kind": "write", "path": "root/l_out.liquid"}, ["l_out.liquid", "l_out"])
+        if k == 3:
+            return ({"kind": "write", "path": "root/e.liquid"}, ["e.liquid", "e"])       # shadows root2/e.liquid
+        if k == 4:
+            return ({"kind": "delete", "path": "root/a.liquid"}, ["a.liquid", "a"])      # root2/a.liquid answers
+        if k == 5:
+            return ({"kind": "file_to_link", "path": "root/b.txt", "target": "a.liquid"}, ["b.txt"])
+        if k == 6:
+            return ({"kind": "file_to_link", "path": "root/sub/c.liquid", "target": "../../outside/sub/c.liquid"},
+                    ["sub/c.liquid", "sub/c"])
+        if k == 7:
+            return ({"kind": "write", "path": "root/sub/f.liquid"}, ["sub/f.liquid", "sub/f"])  # shadows root2/sub/f
+        return ({"kind": "write", "path": "root/zz.liquid"}, ["zz.liquid", "zz"])       # a name that was not found before
 
     def _gen_name(self, rng, sc):
         pkg = sc["loader"] == "pkg"
         firsts = (["p", "p.liquid", "sub/q", "sub/q.liquid", "noext", "r.txt", "m", "l_out", "l_out.liquid",
                    "../other/x.liquid", "../secret", "other/x.liquid", "zz"] if pkg else
                   ["a", "a.liquid", "b.txt", "noext", "sub/c.liquid", "sub/c", "sub/deep/d.liquid", "sp ace.liquid",
-                   "sp ace", "uni-ü世.liquid", "ctl\nx.liquid", "~/t.liquid", ".hidden", "dots.tar.gz",
+                   "sp ace", "uni-ü世.liquid", "ctl\nx.liquid", "~/t.liquid", "~/t", "~/secret.txt", "~/a.liquid",
+                   "~nosuchuser/a.liquid", "~root/.bashrc", "~~/t.liquid", ".hidden", "dots.tar.gz",
                    "dots.tar", "back\\slash.liquid", "sub/noext", "e", "e.liquid", "sub/f.liquid", ".../x.liquid",
                    "l_in.liquid", "l_in", "l_out.liquid", "l_out", "l_abs_out.liquid", "ld_out/secret.txt",
                    "ld_out/a.liquid", "ld_out/a", "ld_in/c.liquid", "l_dangling.liquid", "l_loop.liquid",
@@ -366,8 +445,10 @@ class C22:
         FaultyPath.plan = plan
         pkgdir = fs.path("pkgs")
         cwd = os.getcwd()
+        home = os.environ.get("HOME")
         try:
             os.chdir(fs.root)
+            os.environ["HOME"] = fs.path("outside")
             with warnings.catch_warnings():
                 warnings.simplefilter("ignore")
                 tree = Tree(fs, sc)
@@ -382,6 +463,10 @@ class C22:
                     importlib.invalidate_caches()
         finally:
             os.chdir(cwd)
+            if home is None:
+                os.environ.pop("HOME", None)
+            else:
+                os.environ["HOME"] = home
             fsl_mod.Path = saved
             FaultyPath.plan = None
             fs.close()
@@ -407,6 +492,11 @@ class C22:
             given = list(sc["roots"])            # relative to the current directory (the sandbox, see run())
         elif shape == "via_link":
             given = [tree.fs.path("lnk_" + r) for r in sc["roots"]]   # a symlink to the search directory
+        elif shape == "cwd":
+            # the search directory IS the current directory, given as '.', '' or './' (a path
+            # without components: the first component of base/name is then the name's own)
+            os.chdir(bases[0])
+            given = [sc.get("cwd_form", ".")] + ["../" + r for r in sc["roots"][1:]]
         sp = given if len(given) > 1 else given[0]
         if kind == "fs":
             ld = FileSystemLoader(sp, ext=sc["ext"], reject_symlinks=sc["reject_symlinks"])
@@ -425,6 +515,8 @@ class C22:
         in_flight = [0]
         nontrivial = [0]
         dirty = set()      # names whose request was hit by a fault (cache may legitimately hold nothing)
+        mutated = [0]
+        ever_allowed = {}  # name -> outcomes permitted for it at some earlier request of this run
 
         def add(oracle, sig, detail):
             viol.append({"oracle": oracle, "sig": "%s:%s" % (sc["loader"], sig), "detail": detail})
@@ -527,6 +619,20 @@ class C22:
                     allowed = allowed | (tree.resolve(name, [b], ext, False, reject) - {NF})
             if injected:
                 dirty.add(name)
+            if sc["loader"] == "cfs":
+                # a caching loader may go on serving what it loaded before the tree changed when
+                # nothing tells it otherwise (auto_reload off); with auto_reload on every file here
+                # has its own mtime, so a replaced file is always noticed
+                seen = ever_allowed.setdefault(name, set())
+                if mutated[0] and not sc["auto_reload"]:
+                    allowed = allowed | (seen - {NF})
+                elif mutated[0]:
+                    # auto_reload on: an entry loaded from a later search path stays up to date when
+                    # the same name is created in an earlier one afterwards (nothing it can stat changed):
+                    # what a single configured base still answers, and was served before, is permitted
+                    for b in bases:
+                        allowed = allowed | ((tree.resolve(name, [b], ext, False, reject) - {NF}) & seen)
+                seen |= tree.resolve(name, bases, ext, False, reject)
             res["states"].append(int(digest((sc["loader"], sc["config"], feat, out[0]))[:12], 16))
             self._judge(sc, tree, op, name, feat, out, allowed, bases, reject, injected, edited, dirty, add, st)
 
@@ -535,6 +641,18 @@ class C22:
             for op in c["ops"]:
                 loop.streams[me] = loop.rng.fork("op", op["uid"])
                 await loop.latency("think")
+                if op["op"] == "mutate":
+                    plan.enabled = False
+                    try:
+                        history.append([op["uid"], loop.event("mutate"), tree.mutate(op)])
+                        bump(st, "reach.tree_mutated." + op["kind"])
+                    except OSError as e:   # e.g. the parent is a dangling link in this tree: no-op
+                        history.append([op["uid"], loop.event("mutate"), "failed: " + type(e).__name__])
+                        bump(st, "tree_mutation_not_applicable")
+                    finally:
+                        plan.enabled = True
+                    mutated[0] += 1
+                    continue
                 await do_request(op)
                 if viol:
                     return
@@ -640,6 +758,8 @@ class C22:
                     yield {**sc, "clients": cl[:i] + [{**c, "ops": c["ops"][:j] + [s] + c["ops"][j + 1:]}] + cl[i + 1:]}
 
     def _simpler(self, op):
+        if op["op"] != "req":
+            return
         if op["via"] != "direct":
             yield {**op, "via": "direct"}
         if op["mode"] == "async":
